@@ -40,8 +40,9 @@
    specification stream: the model's outcome where `Spec.performInviteGuards` holds or the model refuses; "err:must-reject" where
    the model accepts and the guards fail; "unspecified:caller-contract" for an abort.
 
-   handshake.sendjoin_pseudo  ver cls ev roomID reqEventID origin local verify store selfok cur
-     as handshake.sendjoin for room version org.matrix.msc4014: `verify` answers for the mxid_mapping signatures (caller's
+   handshake.sendjoin_pseudo  ver cls ev evType roomID reqEventID origin local senderQ verify store selfok cur
+     as handshake.sendjoin for room version org.matrix.msc4014 (`evType`: hex of the event's type, checked on both sides
+     against the accessor; `senderQ`: "err" | "none" | "d:<domain>", the UserIDQuerier's answer for the sender ID): `verify` answers for the mxid_mapping signatures (caller's
      verifier), `store` = StoreSenderIDFromPublicID ok/err, `selfok` = the sender's own key validly signed the event (1/0, checked
      by the harness).
 -/
